@@ -1,6 +1,12 @@
 (** C16 - Allocation policies mean what the documentation says; no spurious refusals.
     Only statements closed by [exact]; the proofs live in HQ.Alloc.GroupsProofs. *)
 From HQ Require Import Base.Prelude Gen.Consts Alloc.Model Alloc.Spec Alloc.Lemmas Alloc.GroupsProofs Alloc.MirrorSystem Alloc.Admission Alloc.Objective Alloc.Strict Alloc.Examples.
+(** The policy-shape and admission theorems (closed by [exact], proofs in HQ.Alloc.Policy*.v) are
+    stated in the annex file HQ.Alloc.PolicyC16, re-exported here: C16_claim_follows_policy,
+    C16_scatter_shape, C16_compact_shape, C16_round_robin, C16_tight_shape, C16_min_fraction_direct,
+    C16_min_fraction_coupled, C16_admission_iff_feasible_all, C16_admission_all, C16_grant_has_room,
+    C16_unfit_refused, C16_enabled_agrees, C16_strict_admission, C16_optimal_answer_minimal. *)
+From HQ Require Export Alloc.PolicyC16.
 Open Scope N_scope.
 
 (** The reference [min_groups] is the true minimum number of groups that can hold (units, fraction):
